@@ -63,7 +63,7 @@ impl Fixture {
     }
 
     pub fn snapshot(&self) -> Vec<Vec<Row>> {
-        ["SELECT * FROM t1 ORDER BY id", "SELECT * FROM t2 ORDER BY id", "SELECT * FROM t3 ORDER BY k, v, n", "SELECT * FROM t4 ORDER BY id"]
+        ["SELECT * FROM t1 ORDER BY id", "SELECT * FROM t2 ORDER BY id", "SELECT * FROM t3 ORDER BY k, v, n", "SELECT * FROM t4 ORDER BY id", "SELECT * FROM \"o`d\"\"t\" ORDER BY id"]
             .iter()
             .map(|q| self.db.rows(q).expect("snapshot"))
             .collect()
